@@ -82,7 +82,8 @@ def generate(r, tier, build):
 
 
 def corpus(build):
-    return [
+    from .gen_int import literal_sweep
+    return literal_sweep("u64,u32,f64,fill:9,jump,u64,f32,fill:3") + [
         # published known-answer anchors and the crate's doc-test values
         "word gen=xoshiro state=1,2,3,4 via=serde ops=u64,u64,u64,u64",
         "word gen=splitmix seed=1234567 via=from_seed ops=u64,u64,u64,u64,u64",
